@@ -19,7 +19,7 @@ IPV4 = ['1.2.3.4.5.6.7','1.2.3.4.5.6.7.8.9.','\u0131.2.3.4','1.2.3.\u0134','0x\u
 IPV6 = ['[::1.2.3.4294967297]','[::ffff:0.42949672970.0.1]','[1:2:3:4:5:6:1.2.12884901891.4]','[::100000001]','[::10001]','[::1.2.3.256]','[::1.2.3.18446744073709551617]','[\u0131::1]','[1::\u0162]','[\uff41::]','[::\U00010041]','[1:\u0132:3::]','[::1.\u0132.3.4]','[::]','[::1]','[1::]','[1:2:3:4:5:6:7:8]','[1:2:3:4:5:6:7::]','[::2:3:4:5:6:7:8]','[1::8]','[1:0:0:2:0:0:0:3]','[0:0:1:0:0:1:0:0]','[1:0:0:0:1:0:0:1]','[::1.2.3.4]','[::ffff:1.2.3.4]','[1:2:3:4:5:6:1.2.3.4]','[1:2:3:4:5:6:7:1.2.3.4]','[::1.2.3]','[::1.2.3.4.5]','[::01.2.3.4]','[::256.1.1.1]','[::1.2.3.4','[1:2:3:4:5:6:7:8:9]','[1::2::3]','[:1]','[1:]','[12345::]','[g::]','[::1]x','[FFFF:AbCd::0001]','[0:0:0:0:0:0:0:0]','[1:2:3:4:5:6:7]','[::.1.2.3]','[1:2:3:4:5:6::1.2.3.4]','[::1.2.3.4:5]','[::0.0.0.0]','[::255.255.255.255]','[0:1:0:1:0:1:0:1]','[1:0:0:1:0:0:0:0]','[]','[:]','[:::]','[1:2:3:4:5:6:7:8::]','[::1:2:3:4:5:6:7:8]','[1:2:3:4::5:6:7:8]','[1::2:3:4:5:6:7]','[0::0]','[::00001]','[::1.2.3.4.]','[::1.2..3]','[1:2:3:4:5:1.2.3.4]','[::10.0.0.1]','[::1.02.3.4]','[::1.2.3.300]']
 BADHOST = ['a b','a<b','a>b','a^b','a|b','a\\b','a[b','a]b','a@b','a:b','a%00b','a\x7fb','a\x01b','a%7fb','a%20b','a#b','a?b','a/b','[a',']',' ','%','a\tb','a%25b','a%2Fb','a%3Ab']
 PORTS = ['','','','',':',':80',':443',':21',':0',':8080',':65535',':65536',':00080',':000000080',':0000065535',':99999',':100000',':8x',':x',':-1',':80 ',':\uff10',':00000',':065536',':1\t2',':65616',':4294967376',':4294967297',':18446744073709551696',':131072',':' + '0' * 30 + '81']
-SEGS = ['a','b','c','.','..','%2e','%2E','.%2e','%2e.','%2E%2e','%2e%2E','.%2E','...','','x y','C:','C|','c|','d:','\u00e4','%','%g1','?','a;b',"a'b",'a`b','{x}','a\\b','a%5Cb','~','\x7f','a\x01','%00','\U0001f600','^','|','a|b','%7C','C%7C','%2e%2e%2e','.%2e.','\u0080','\u07ff','\u0800','\ud7ff','\ue000','\uffff','\U00010000','\U0010ffff']
+SEGS = ['C:d','c|x','a','b','c','.','..','%2e','%2E','.%2e','%2e.','%2E%2e','%2e%2E','.%2E','...','','x y','C:','C|','c|','d:','\u00e4','%','%g1','?','a;b',"a'b",'a`b','{x}','a\\b','a%5Cb','~','\x7f','a\x01','%00','\U0001f600','^','|','a|b','%7C','C%7C','%2e%2e%2e','.%2e.','\u0080','\u07ff','\u0800','\ud7ff','\ue000','\uffff','\U00010000','\U0010ffff']
 QUERIES = ['','','?','?q','?a=b&c=d',"?it's",'?a b','?"x"','?<>','?\u00e4=\u00f6','?%zz','?a#b','??','?\x7f','?`{}','?%27','?a=1&a=2&b','?+&=%26','?\U0001f600']
 FRAGS = ['','','#','#f','#a b','#`x`','#"<>"','#\u00e4','#%zz','##','#a#b','#\x00x','#{}','#\U0001f600','#\x7f']
 RELS = ['file://C:/x','file://c|/d','//C:/x','\\\\c|\\d','file://C:','file://C:?q#f','//c|','','.','..','../..','../../..','./','../','/x','//h','//h:8/p','///p','?q','#f','x:y','C|/','C:/x','c|','\\\\x','\\x','/\\h','http:','http:x','http:/x','http://x','https:x','file:','file:x','file:/x','file:..','non-spec:x','a/../b','a/./b/','%2e%2e/x','.%2e','x?y#z','  y  ','/.//p','//','/..//p','..//p','C|','/C|/x','//C|/x','///C|','?','#','x/','%2E','..\\x','ws:x','ftp:/x','\\\\h\\p','/C:','C|\\x','file:C|/x','file:/C|','file://C|/x','file:///C|','//localhost/x','file://localhost/x','file://LOCALHOST','\t/ x\n','#\n','?\t']
@@ -38,7 +38,7 @@ SETVALS = {
  'host': ['','h','host:81','h:80','h:443','h:','h:x','h:65536','EXAMPLE.com','b\u00fccher.de','1.2.3.4','0x7f.1','[::1]','[::1]:8','[1::2','a b','a%41','%','h/p','h?q','h#f','h\\p',':80','localhost','LOCALHOST','x:99999','h:00080','xn--a','a..b','\t h','h\n:8\t1','1.2.3.4.5','a<b','\u3002','h@i','u:p@h','C:','C|','.'],
  'hostname': ['','h','host:81','EXAMPLE.com','1.2.3.4','[::1]','a b','h/p','h?q','h#f','localhost','x:','C|','..','%00','h:8','[::1]:8'],
  'port': ['','0','80','443','21','8080','65535','65536','99999','000080','0000000000080','8x','x','-1',' 80','80 ','8\t0','\n','\r','80/x','80?x','80#x','80\\x','\uff18','00000'] + [str(w) for w in WRAPV] + ['0' * 30 + '81', '9' * 30],
- 'pathname': ['','/','/a','a','a/b','/a/./b/../c','..','/..','/%2e%2E/x','\\a\\b','/a b','/a?b','/a#b','/\u00e4','//x','//','/.//x','/C|/x','C:','/C:/..','/a/%2e','/a/.','/a/..','?','#','/%','\t/a\n','/a/../../..','.','/./','x\\..\\y','/\U0001f600','/a|b^c'],
+ 'pathname': ['/C:data/../x','/C:d/..','/c|x/../y','/C:/../..','','/','/a','a','a/b','/a/./b/../c','..','/..','/%2e%2E/x','\\a\\b','/a b','/a?b','/a#b','/\u00e4','//x','//','/.//x','/C|/x','C:','/C:/..','/a/%2e','/a/.','/a/..','?','#','/%','\t/a\n','/a/../../..','.','/./','x\\..\\y','/\U0001f600','/a|b^c'],
  'search': ['','?','q','?q','??q','a=b&c=d','?a b',"?'",'#','?#','\u00e4','%zz','\n?a','?\ta','? ','a#b','\U0001f600','?+&='],
  'hash': ['','#','f','#f','##f','a b','`','\u00e4','%zz','\n#a','#\ta','# ','"<>','\x00'],
  'href': ['http://h/','https://u:p@h:444/p?q#f','file:///C:/x','non-spec:opaque','non-spec://h/p','','x','http://','//h','http://h:99999/','non-spec:/.//p','HTTP://H/%2e/','http://h/?a=1&b=2','http://a b/','\thttp://h/\n','non-spec:x  ','file://localhost/p','blob:http://h/'],
@@ -56,7 +56,7 @@ SETKEYS = {
  'host': ['', 'h', 'h:81', 'h:', 'C:', 'localhost', '[::1]', 'a b', 'h:80', 'h:443/x'],
  'hostname': ['', 'h', 'h:81', 'C|', 'localhost', '1.2.3.4', 'h?x'],
  'port': ['', '8', '80', '443', '21', '65536', '008', 'x', '8x'],
- 'pathname': ['', '/', 'a', '/a/../b', '//x', '/.//x', '/C|/..', '..', '?', '\\a'],
+ 'pathname': ['', '/', 'a', '/a/../b', '//x', '/.//x', '/C|/..', '/C:d/../x', '..', '?', '\\a'],
  'search': ['', '?', 'q', '?q', '? ', '#'],
  'hash': ['', '#', 'f', '#f', '# '],
  'href': ['non-spec:x  ?', 'http://h/?#', ''],
@@ -724,7 +724,9 @@ class Gen:
                 p = key[:j % n]
                 fmt = 'windows' if j < n else 'posix'
                 e = (8, 16, 32)[(k + self.seed) % 3]
-                self.emit('frompath %s %d %s' % (fmt, e, U(units(p, e))))
+                # three consecutive lines = three consecutive argument forms of the harness: at least one of them is an
+                # unterminated, exactly sized buffer whatever the line alignment
+                for _ in range(3): self.emit('frompath %s %d %s' % (fmt, e, U(units(p, e))))
                 return True
             tot += 2 * n
         return False
